@@ -219,7 +219,12 @@ func c17Fail(c *vkit.Ctx, r *rand.Rand, i int) {
 		snaps.VerifResetProcessState()
 		seed := text
 		if state == "different" {
-			_, seed = genDoc(r, yaml)
+			for tries := 0; seed == text && tries < 20; tries++ {
+				_, seed = genDoc(r, yaml)
+			}
+			if seed == text {
+				state = "equal"
+			}
 		}
 		ts := vkit.NewT("TestF")
 		k.do(ts, seed, nil, nil)
@@ -258,6 +263,34 @@ func c17Fail(c *vkit.Ctx, r *rand.Rand, i int) {
 	}
 	if df := nonDir(d0.Diff(vkit.TakeDigest(k.root), false), d0); len(df) > 0 {
 		c.Violate("matcher-failure-wrote", "", fmt.Sprintf("%s mode %s slot %s: %v", api, mode.name, state, df), in)
+		return
+	}
+	if r.IntN(2) == 0 {
+		// the execution ends here, having made only the failing call; the SAME test is then
+		// executed again in the same process (-count): its first call addresses slot 1 again
+		tt.Finish()
+		snaps.VerifSetMode(false, "")
+		t2 := vkit.NewT("TestF")
+		k.do(t2, text, nil, nil)
+		o := vkit.Classify(t2.Take())
+		t2.Finish()
+		want := map[string]string{"missing": vkit.Added, "equal": vkit.Passed, "different": vkit.Failed}[state]
+		if o != want {
+			c.Violate("re-execution-after-failing-call-lost-slot-1", "", fmt.Sprintf("%s slot %s: after an execution whose only call failed on its matchers, the next execution's first call should be %s on slot 1, got %s", api, state, want, o), in)
+			return
+		}
+		if api != "sjson" {
+			ents, _ := vkit.ReadSnapFile(filepath.Join(k.root, "fm.snap"))
+			if len(vkit.FindEntries(ents, "TestF - 2")) != 0 {
+				c.Violate("re-execution-after-failing-call-lost-slot-1", "", fmt.Sprintf("entries: %v", ids(ents)), in)
+				return
+			}
+		} else if _, err := os.Stat(filepath.Join(k.root, "fm_2.snap.json")); err == nil {
+			c.Violate("re-execution-after-failing-call-lost-slot-1", "", "fm_2.snap.json was created", in)
+			return
+		}
+		c.Count("reexecution_slot_checks", 1)
+		c.Case(vkit.Hash(text, fmt.Sprint(specs), api, mode.name, state, "reexec"), nfail >= 1 && nok >= 1)
 		return
 	}
 	// the failing call consumed ordinal 1: a following plain call lands in slot 2
